@@ -56,6 +56,18 @@ class PROP(E2E):
                     acc = ("a%d," % k) if k else ""
                     pre.append(cligen.call_op(preq, W=acc + {"werr": "e:TimedOut", "zero": "z", "abandon": "p"}[mode], drop="0" if mode == "abandon" else "-"))
                 yield dict(proto=proto, slave=rng.randrange(256), req=req, reply=("none",), pre=pre)
+            # ... or after earlier requests were refused by the encoder (PDU > 253 bytes): those transmit nothing and must leave
+            # nothing behind, so the new request goes out as exactly its spec frame
+            for _ in range(n // 10):
+                req = mb.rnd_req(rng)
+                if mb.spec_req_size(req) > 253 or (proto == "rtu" and not cligen.rtu_supported_req(req)):
+                    continue
+                pre = []
+                for _ in range(rng.randrange(1, 3)):
+                    big = rng.choice([("WMR", 7, [1] * rng.randrange(124, 140)), ("WMC", 7, [True] * rng.randrange(1977, 2100)),
+                                      ("CU", 0x41, bytes(rng.randrange(253, 300))), ("RWMR", 1, 1, 2, [5] * rng.randrange(122, 130))])
+                    pre.append(cligen.call_op(big, typed=(big[0] != "CU" and rng.random() < 0.5)))
+                yield dict(proto=proto, slave=rng.randrange(256), req=req, reply=("none",), pre=pre, pre_clean=True)
 
     def oracle(self, c):
         m = c.meta
@@ -80,7 +92,7 @@ class PROP(E2E):
         if st == 0:
             res, w = cligen.res_and_w(cligen.split_results(c.impl)[-1])
             want = cligen.frame(m["proto"], m.get("npre", 0), m["slave"], mb.spec_req_pdu(req))
-            if m.get("npre"):
+            if m.get("npre") and not m.get("pre_clean"):
                 return None if w.endswith(want) else "after %d failed call(s) the client wrote ...%s for %s to slave %d; its spec frame is %s" % (
                     m["npre"], w.hex()[-80:], m["req"][:50], m["slave"], want.hex()[:80])
             return None if w == want else "client wrote %s for %s to slave %d; spec frame is %s" % (w.hex()[:80], m["req"][:50], m["slave"], want.hex()[:80])
